@@ -278,7 +278,7 @@ static Plan dkg_generate(uint64_t seed, const Tier &tier)
 	p.property = prop.empty() ? "C15" : prop;
 	p.cfg["proto"] = proto;
 	static const int nsq[] = { 3, 4, 4, 4, 5, 4, 5, 6 }, nst[] = { 3, 4, 4, 5, 5, 6, 7, 7 };
-	int n = tier.thorough ? nst[g.below(8)] : nsq[g.below(8)];
+	int n = (tier.thorough || proto == PR_FLIP || proto == PR_VSS) ? nst[g.below(8)] : nsq[g.below(8)];
 	if (proto == PR_DSS && !tier.thorough && n > 5) n = 4;
 	int tmax = (n - 1) / 3;
 	int t = tmax ? (int)g.range(g.chance(3, 4) ? tmax : 0, tmax) : 0;
@@ -304,13 +304,13 @@ static Plan dkg_generate(uint64_t seed, const Tier &tier)
 		for (int k = 0; k < f; k++)
 		{
 			int z; do { z = (int)g.below(n); } while (used.count(z)); used.insert(z);
-			p.ops.push_back(Op("f_faulty", z, (int64_t)g.below(4), (int64_t)g.below(400), (int64_t)g.below(1 << 16)));
+			p.ops.push_back(Op("f_faulty", z, (int64_t)g.below(5), (int64_t)g.below(400), (int64_t)g.below(1 << 16)));
 		}
 	}
 	return p;
 }
 
-static RunResult dkg_execute(const Plan &plan)
+static RunResult dkg_execute_inner(const Plan &plan, const std::vector<uint64_t> *clean_counts, std::vector<uint64_t> *counts_out)
 {
 	World W(plan);
 	W.G = &group_pool()[(size_t)plan.get("group", 0) % group_pool().size()];
@@ -326,11 +326,19 @@ static RunResult dkg_execute(const Plan &plan)
 		{
 			size_t z = (size_t)plan.ops[i].arg(0) % W.n;
 			if (W.faulty[z] || nf >= W.t) continue;
-			W.faulty[z] = 1 + (int)(plan.ops[i].arg(1) % 4); nf++;
+			W.faulty[z] = 1 + (int)(plan.ops[i].arg(1) % 5); nf++;
 			crash_after[z] = plan.ops[i].arg(2); bseed[z] = plan.ops[i].arg(3);
 			W.out[z].honest = false; W.out[z].fmode = W.faulty[z] - 1;
 			W.res.cnt[std::string("fault.faulty_party_mode") + std::to_string(W.faulty[z] - 1)]++;
 		}
+	// fault placement relative to a clean run: the clean pass (all parties honest, same seed) counts the
+	// messages every party sends; "crash" and "out of range" then start after a fraction of that count
+	if (counts_out) { for (size_t z = 0; z < W.n; z++) { W.faulty[z] = 0; W.out[z].honest = true; } nf = 0; }
+	else if (clean_counts)
+		for (size_t z = 0; z < W.n; z++)
+			if (W.faulty[z] == 3 || W.faulty[z] == 5)
+				crash_after[z] = (int64_t)((*clean_counts)[z] * (uint64_t)(crash_after[z] % 400) / 400);
+	std::vector<uint64_t> all_sent(W.n, 0);
 	// timing discipline: drift caused by f faulty parties stays below the broadcast time-out
 	if ((int64_t)W.Tb <= 3 * (int64_t)nf * (int64_t)W.Tu + 10) W.Tb = 3 * nf * W.Tu + 30;
 	W.unet.reset(new Net(&W.S, W.n, true, 1)); W.bnet.reset(new Net(&W.S, W.n, true, 2));
@@ -348,6 +356,18 @@ static RunResult dkg_execute(const Plan &plan)
 		World &W = *Wp;
 		int fm = W.faulty[src] - 1;
 		if (fm < 0 || fm == 0) { out.push_back(u); return; }
+		if (fm == 4)
+		{
+			// after a fraction of its messages the party sends values outside the range (value + q): its own
+			// broadcast payloads (r-send tuples on the broadcast net) and its private messages
+			uint64_t c4 = W.sendctr[src]++;
+			if ((int64_t)c4 < crash_after[src]) { out.push_back(u); return; }
+			Unit v = u; bool changed = false;
+			if (N == W.unet.get()) { for (size_t k = 0; k < v.ints.size(); k++) { Z x; mpz_set_str(x, v.ints[k].c_str(), 16); mpz_add(x, x, W.G->q); v.ints[k] = zs(x); } changed = true; }
+			else if (v.ints.size() == 5 && v.ints[3] == "1" && v.ints[1] == std::to_string(src)) { Z x; mpz_set_str(x, v.ints[4].c_str(), 16); mpz_add(x, x, W.G->q); v.ints[4] = zs(x); changed = true; }
+			if (changed) W.res.cnt["fault.out_of_range_value"]++;
+			out.push_back(v); return;
+		}
 		uint64_t c = W.sendctr[src]++;
 		if (fm == 1) { W.res.cnt["fault.silent_drop"]++; return; }                 // never says anything
 		if (fm == 2) { if ((int64_t)c >= crash_after[src]) { W.res.cnt["fault.crash_drop"]++; return; } out.push_back(u); return; }
@@ -361,10 +381,13 @@ static RunResult dkg_execute(const Plan &plan)
 			Z x; mpz_set_str(x, v.ints[k].c_str(), 16); mpz_add_ui(x, x, 1); v.ints[k] = zs(x);
 			W.res.cnt["fault.byz_link_mutate"]++; out.push_back(v); return;
 		}
-		(void)N; out.push_back(u);
+		out.push_back(u);
 	};
 	W.unet->filter = [filt, Wp](size_t s, size_t d, const Unit &u, std::vector<Unit> &o){ filt(Wp->unet.get(), s, d, u, o); };
 	W.bnet->filter = [filt, Wp](size_t s, size_t d, const Unit &u, std::vector<Unit> &o){ filt(Wp->bnet.get(), s, d, u, o); };
+	std::vector<uint64_t> *asp = &all_sent;
+	W.unet->tap = [asp](size_t src, size_t, const Unit &){ (*asp)[src]++; };
+	if (!getenv("TMCGSIM_TRACE")) W.bnet->tap = [asp](size_t src, size_t, const Unit &){ (*asp)[src]++; };
 	// messages to sign: 0, 1, q-1, q, random
 	{
 		int64_t mc = plan.get("msgclass", 0); size_t nm = (size_t)std::max<int64_t>(1, std::min<int64_t>(3, plan.get("nmsg", 1)));
@@ -621,7 +644,19 @@ static RunResult dkg_execute(const Plan &plan)
 	W.res.cnt["probe.complaints"] += count_substr(cerr_all, "complaint");
 	W.res.fingerprint = W.S.hist.h; W.res.steps = W.S.steps; W.res.sim_ms = W.S.now_ms;
 	W.res.nontrivial = true;
+	if (counts_out) *counts_out = all_sent;
 	return W.res;
+}
+
+static RunResult dkg_execute(const Plan &plan)
+{
+	bool need = false;
+	for (size_t i = 0; i < plan.ops.size(); i++)
+		if (plan.ops[i].kind == "f_faulty" && ((plan.ops[i].arg(1) % 5) == 2 || (plan.ops[i].arg(1) % 5) == 4)) need = true;
+	if (!need) return dkg_execute_inner(plan, NULL, NULL);
+	std::vector<uint64_t> counts;
+	dkg_execute_inner(plan, NULL, &counts);
+	return dkg_execute_inner(plan, &counts, NULL);
 }
 
 static void dkg_shrink_more(const Plan &plan, std::vector<Plan> &out)
